@@ -119,7 +119,21 @@ func genTree(rt *rapid.T, label string, depth int, budget *int, allowDot bool) [
 	for i := 0; i < n && *budget > 0; i++ {
 		*budget--
 		nd := &tnode{name: genTreeName(rt, fmt.Sprintf("%s_%d", label, i), allowDot, used)}
-		if depth < 3 && rapid.IntRange(0, 2).Draw(rt, fmt.Sprintf("%s_%d_isdir", label, i)) == 0 {
+		isDir := depth < 3 && rapid.IntRange(0, 2).Draw(rt, fmt.Sprintf("%s_%d_isdir", label, i)) == 0
+		if rapid.IntRange(0, 14).Draw(rt, fmt.Sprintf("%s_%d_long", label, i)) == 0 {
+			// a name near the 255 bytes one length byte (and the file system) allow; files stay short enough for the
+			// ".incomplete" suffix an upload needs
+			lens := []int{200, 243, 244}
+			if isDir {
+				lens = []int{244, 250, 252, 253, 254, 255}
+			}
+			if l := rapid.SampledFrom(lens).Draw(rt, fmt.Sprintf("%s_%d_longlen", label, i)); l > len(nd.name) {
+				delete(used, nd.name)
+				nd.name += strings.Repeat("L", l-len(nd.name))
+				used[nd.name] = true
+			}
+		}
+		if isDir {
 			nd.dir = true
 			nd.kids = genTree(rt, fmt.Sprintf("%s_%d", label, i), depth+1, budget, allowDot)
 		} else {
